@@ -143,7 +143,7 @@ def facts_dir(config='default', repo=None, log=sys.stderr, target_dir=None):
             f.write('%s\n' % time.time())
         info['generated'] = True
         info['gen_s'] = round(time.time() - t0, 1)
-        _prune(os.path.join(CACHE, 'facts'), keep=4)
+        _prune(os.path.join(CACHE, 'facts'), keep=8)
         return d, info
     finally:
         fcntl.flock(lock, fcntl.LOCK_UN)
